@@ -250,6 +250,65 @@ class DefiniteAssignment(object):
         return False
 
 
+def undefined_names(repo, fi):
+    """Name loads in fi that are neither local, nor bound in an enclosing function or class body, nor module-level names of fi's
+    module, nor builtins: a NameError waiting for the path to be taken"""
+    import builtins
+    loc = local_names(fi.node)
+    outer = set()
+    par = fi.parent
+    while par is not None:
+        outer |= local_names(par.node)
+        par = par.parent
+    m = fi.module
+    modnames = set(m.funcs) | set(m.classes) | set(m.assigns) | set(m.imports)
+    for n in ast.walk(m.tree):
+        if isinstance(n, (ast.Global,)):
+            modnames |= set(n.names)
+    # names bound at module level by other statements (for/with/try targets, conditional defs, del ...)
+    for st_ in m.tree.body:
+        for x in ast.walk(st_):
+            if isinstance(x, (ast.FunctionDef, ast.AsyncFunctionDef, ast.ClassDef)):
+                modnames.add(x.name)
+                continue
+        for x in ast.iter_child_nodes(st_) if not isinstance(st_, (ast.FunctionDef, ast.AsyncFunctionDef, ast.ClassDef)) else []:
+            for y in ast.walk(x):
+                if isinstance(y, ast.Name) and isinstance(y.ctx, ast.Store):
+                    modnames.add(y.id)
+                elif isinstance(y, ast.ExceptHandler) and y.name:
+                    modnames.add(y.name)
+    clsnames = set()
+    if fi.cls is not None:
+        clsnames = set()       # class-body names are not visible from methods
+    out = []
+    stack = list(ast.iter_child_nodes(fi.node))
+    comp_targets = set()
+    for n in ast.walk(fi.node):
+        if isinstance(n, ast.comprehension):
+            for y in ast.walk(n.target):
+                if isinstance(y, ast.Name):
+                    comp_targets.add(y.id)
+        elif isinstance(n, ast.Lambda):
+            a = n.args
+            for y in a.posonlyargs + a.args + a.kwonlyargs + [z for z in (a.vararg, a.kwarg) if z]:
+                comp_targets.add(y.arg)
+        elif isinstance(n, (ast.FunctionDef, ast.AsyncFunctionDef)) and n is not fi.node:
+            a = n.args
+            for y in a.posonlyargs + a.args + a.kwonlyargs + [z for z in (a.vararg, a.kwarg) if z]:
+                comp_targets.add(y.arg)
+            for y in ast.walk(n):
+                if isinstance(y, ast.Name) and isinstance(y.ctx, ast.Store):
+                    comp_targets.add(y.id)
+        elif isinstance(n, ast.NamedExpr):
+            comp_targets.add(n.target.id)
+    for n in ast.walk(fi.node):
+        if isinstance(n, ast.Name) and isinstance(n.ctx, ast.Load):
+            if n.id in loc or n.id in outer or n.id in modnames or n.id in comp_targets or hasattr(builtins, n.id) or n.id in ('__class__', '__file__', '__name__'):
+                continue
+            out.append((n, n.id))
+    return out
+
+
 def rule_definite_assignment(check, rule, roots, what):
     """every read of a local variable in the functions reachable from `roots` is preceded, on every path, by a binding of it.
     (`for`/`while` bodies may run zero times; a `try` body gives its handlers nothing; names bound only inside such a region are
@@ -258,6 +317,11 @@ def rule_definite_assignment(check, rule, roots, what):
     cg = CallGraph(repo)
     keys = []
     for r in roots:
+        if r.startswith('*'):
+            for fi_ in repo.all_funcs():
+                if fi_.module.name == r[1:] and fi_.key not in keys:
+                    keys.append(fi_.key)
+            continue
         if repo.func(r, required=False) is None:
             check.inconclusive(rule, '-', 'anchor %s vanished' % r, key='defassign|root|%s' % r)
             continue
@@ -272,6 +336,11 @@ def rule_definite_assignment(check, rule, roots, what):
             continue
         n += 1
         check.analysed(fi)
+        for node, name in undefined_names(repo, fi):
+            bad += 1
+            check.violation(rule, '%s %s' % (fi.loc(node), fi.key), 'the name %r is read here but is bound nowhere -- not in this function, not in an '
+                            'enclosing one, not at module level, not a builtin: NameError %s' % (name, what), key='undefined|%s|%s' % (fi.key, name),
+                            witness='the path through this statement')
         for node, name in DefiniteAssignment(fi).run():
             bad += 1
             check.violation(rule, '%s %s' % (fi.loc(node), fi.key), 'the local variable %r is read here although a path reaches this point without binding '
